@@ -231,7 +231,11 @@ func (c *Ctx) runBFS(name string, sys xstate.System, depth int, kase interface{}
 		for i := 0; i < nd; i++ {
 			pow *= int64(sys.NumEvents())
 		}
-		if pow <= 20000 {
+		limit := int64(20000)
+		if c.NoMergeCap > 0 {
+			limit = c.NoMergeCap
+		}
+		if pow <= limit {
 			break
 		}
 	}
